@@ -49,6 +49,11 @@ CHECKS = {
    note="Metamorphic oracles; ref/theory for spelling and tonic distance. Bounded by progression length and alphabets; the scale-change graph is complete.",
    technique="bounded-exhaustive enumeration with metamorphic oracles + complete state graph of the converter scale",
    ref="DESIGN.md §4 C05"),
+ "C09": dict(
+   text="Bounded-exhaustive deviations from valid inputs and bounded-exhaustive short inputs on every command, observed at the real binary: all chord texts <= 2/3 over 22 symbols on the three text commands and all YAML strings <= 2 on the four write commands; every one-deviation byte mutant (truncation, deletion, replacement/insertion by 20 bytes at every position) of valid chord texts, instance documents and dictionary files; the complete nonsense table (value x channel {text metadata, YAML field, flag} x interpreting command, each also with -o, pass-through nonsense piped into write); a flag-value table; --debug variants; plus in-process sweeps one symbol longer with clock-free hang detection. Oracle: terminates, no panic/fatal/signal, exit 0 or (exit != 0, stderr diagnostic, empty stdout, -o empty/absent); nonsense refused by the first interpreting stage.",
+   note="Hang watchdog is wall clock but lax and re-run (10 s, then 3 x 30 s). One open known finding (goyacc trace on stdout under --debug). Bounded by input length and one deviation.",
+   technique="deviation-bounded exhaustive fault/input enumeration against the real binary with a failure-shape oracle",
+   ref="DESIGN.md §4 C09"),
  "C10": dict(
    text="Complete value spaces of every scalar field (356 intervals as degree and base, 28 keys, 52^2 fractions and meters incl. 32/64-bit boundaries, bpm 1..2000, dynamics, all strings <= 3 over a 21-character YAML-hostile alphabet as metadata values and keys) printed the way text conv does and re-read the way write does and generically; 769 chord texts through text conv | write compared with ref/play's meaning of the text; all documents <= 2 over 8 shapes through write conv | write vs write.",
    note="Trusted: yaml.v3 as generic reader. One open known finding (metadata key <<). Strings starting with a line break are excluded (yaml.v3 itself does not round-trip them).",
